@@ -62,7 +62,12 @@ func vhGenRun(idx int, mode string) {
 		vObserve("not-built")
 		return
 	}
-	toks := vhStreamN(vhGenTokens)
+	ntok := vhGenTokens
+	if idx%12 == 11 {
+		// the deeper grammars (ggcore: every twelfth) branch much more per token
+		ntok--
+	}
+	toks := vhStreamN(ntok)
 	k := vInt("lookahead")
 	trailing := vBool("allowTrailing")
 	p := vhGenWith(built, toks, k)
